@@ -1,6 +1,729 @@
-//! C10: not implemented yet.
-use crate::util::Args;
-pub fn main(_a: &Args) {
-    eprintln!("c10: not implemented");
-    std::process::exit(2);
+//! C10: loading and saving are deterministic.
+//!
+//! Every UFO (generated legacy ones with colliding group names and several feature blocks, and
+//! all fixture UFOs under <norad>/testdata) is loaded repeatedly in this process (every
+//! HashMap/HashSet instance gets a fresh RandomState) and in child processes; the loads must be
+//! equal (`Font: PartialEq` and a canonical digest), the saved trees byte-identical. The first
+//! load is also dumped for the comparison with the Coq model (groups, kerning, feature text).
+use crate::c15;
+use crate::util::*;
+use c15::{Case, GMap, Interner, KMap, O};
+use norad::Font;
+use std::collections::BTreeMap;
+use std::fmt::Write as _;
+use std::path::{Path, PathBuf};
+
+#[derive(Clone, Debug, Default)]
+pub struct Feat {
+    pub classes: Option<String>,
+    pub order: Option<Vec<String>>,
+    pub blocks: Option<Vec<(String, String)>>, // in file order; tags distinct
+    pub fea: Option<String>,                   // features.fea
+    pub data: Vec<(String, Vec<u8>)>,          // data/<relative path>
+    pub images: Vec<(String, Vec<u8>)>,        // images/<name>
+}
+
+#[derive(Clone, Debug)]
+pub struct Case10 {
+    pub base: Case,
+    pub feat: Feat,
+}
+
+fn j_feat(f: &Feat) -> serde_json::Value {
+    serde_json::json!({"classes": f.classes, "order": f.order,
+        "blocks": f.blocks.as_ref().map(|b| b.iter().map(|(k, v)| serde_json::json!([k, v])).collect::<Vec<_>>()),
+        "fea": f.fea,
+        "data": f.data.iter().map(|(k, v)| serde_json::json!([k, v])).collect::<Vec<_>>(),
+        "images": f.images.iter().map(|(k, v)| serde_json::json!([k, v])).collect::<Vec<_>>()})
+}
+fn feat_from(v: &serde_json::Value) -> Feat {
+    Feat {
+        classes: v["classes"].as_str().map(|s| s.to_string()),
+        order: v["order"].as_array().map(|a| a.iter().map(|x| x.as_str().unwrap().to_string()).collect()),
+        blocks: v["blocks"].as_array().map(|a| {
+            a.iter().map(|p| (p[0].as_str().unwrap().to_string(), p[1].as_str().unwrap().to_string())).collect()
+        }),
+        fea: v["fea"].as_str().map(|s| s.to_string()),
+        data: store_from(&v["data"]),
+        images: store_from(&v["images"]),
+    }
+}
+fn store_from(v: &serde_json::Value) -> Vec<(String, Vec<u8>)> {
+    v.as_array()
+        .map(|a| {
+            a.iter()
+                .map(|p| {
+                    (
+                        p[0].as_str().unwrap().to_string(),
+                        p[1].as_array().unwrap().iter().map(|b| b.as_u64().unwrap() as u8).collect(),
+                    )
+                })
+                .collect()
+        })
+        .unwrap_or_default()
+}
+impl Case10 {
+    pub fn to_json(&self) -> serde_json::Value {
+        serde_json::json!({"ufo": self.base.to_json(), "features": j_feat(&self.feat)})
+    }
+    pub fn from_json(v: &serde_json::Value) -> Case10 {
+        Case10 { base: Case::from_json(&v["ufo"]), feat: feat_from(&v["features"]) }
+    }
+}
+
+fn write_extra(ufo: &Path, f: &Feat, shuffle: u64) {
+    if f.classes.is_some() || f.order.is_some() || f.blocks.is_some() {
+        let mut s = String::from(c15::HEAD);
+        s.push_str("<dict>\n<key>com.example.keep</key><string>kept</string>\n");
+        if let Some(c) = &f.classes {
+            let _ = writeln!(s, "<key>org.robofab.opentype.classes</key><string>{}</string>", c15::esc(c));
+        }
+        if let Some(b) = &f.blocks {
+            s.push_str("<key>org.robofab.opentype.features</key><dict>\n");
+            for (k, v) in b {
+                let _ = writeln!(s, "<key>{}</key><string>{}</string>", c15::esc(k), c15::esc(v));
+            }
+            s.push_str("</dict>\n");
+        }
+        if let Some(o) = &f.order {
+            s.push_str("<key>org.robofab.opentype.featureorder</key><array>");
+            for k in o {
+                let _ = write!(s, "<string>{}</string>", c15::esc(k));
+            }
+            s.push_str("</array>\n");
+        }
+        let _ = shuffle;
+        s.push_str("</dict>\n</plist>\n");
+        write_file(&ufo.join("lib.plist"), &s);
+    }
+    if let Some(t) = &f.fea {
+        write_file(&ufo.join("features.fea"), t);
+    }
+    for (dir, entries) in [("data", &f.data), ("images", &f.images)] {
+        for (k, v) in entries.iter() {
+            let p = ufo.join(dir).join(k);
+            std::fs::create_dir_all(p.parent().unwrap()).unwrap();
+            std::fs::write(&p, v).unwrap();
+        }
+    }
+}
+
+// ------------------------------------------------------------------ canonical digest, tree hash
+fn fnv(h: &mut u64, bytes: &[u8]) {
+    for b in bytes {
+        *h = (*h ^ *b as u64).wrapping_mul(0x100000001b3);
+    }
+}
+
+/// Everything a load returns, in a canonical order, as text (no Debug of a hashed collection)
+pub fn digest(f: &Font) -> String {
+    let mut s = String::new();
+    let _ = writeln!(s, "meta {:?}", f.meta);
+    let _ = writeln!(s, "info {:?}", f.font_info);
+    let _ = writeln!(s, "lib {:?}", f.lib);
+    let _ = writeln!(s, "groups {:?}", f.groups);
+    let _ = writeln!(s, "kerning {:?}", f.kerning.iter().map(|(a, r)| (a, r.iter().map(|(b, v)| (b, v.to_bits())).collect::<Vec<_>>())).collect::<Vec<_>>());
+    let _ = writeln!(s, "features {:?}", f.features);
+    for l in f.layers.iter() {
+        let _ = writeln!(s, "layer {:?} {:?} {:?} {:?}", l.name(), l.path(), l.color, l.lib);
+        for g in l.iter() {
+            let _ = writeln!(s, " glyph {:?}", g);
+        }
+    }
+    let mut dk: Vec<&PathBuf> = f.data.keys().collect();
+    dk.sort();
+    for k in dk {
+        let _ = writeln!(s, "data {:?} {:?}", k, f.data.get(k).map(|r| r.map(|b| b.to_vec()).map_err(|e| format!("{:?}", e))));
+    }
+    let mut ik: Vec<&PathBuf> = f.images.keys().collect();
+    ik.sort();
+    for k in ik {
+        let _ = writeln!(s, "image {:?} {:?}", k, f.images.get(k).map(|r| r.map(|b| b.to_vec()).map_err(|e| format!("{:?}", e))));
+    }
+    s
+}
+fn digest_hash(f: &Font) -> u64 {
+    let mut h = 0xcbf29ce484222325u64;
+    fnv(&mut h, digest(f).as_bytes());
+    h
+}
+
+/// hash of a directory tree: sorted relative paths, kinds and bytes
+pub fn tree_hash(root: &Path) -> u64 {
+    fn walk(dir: &Path, rel: &str, out: &mut Vec<(String, Option<Vec<u8>>)>) {
+        let mut es: Vec<_> = match std::fs::read_dir(dir) {
+            Ok(rd) => rd.filter_map(|e| e.ok()).collect(),
+            Err(_) => return,
+        };
+        es.sort_by_key(|e| e.file_name());
+        for e in es {
+            let name = e.file_name().to_string_lossy().to_string();
+            let r = if rel.is_empty() { name.clone() } else { format!("{}/{}", rel, name) };
+            let p = e.path();
+            if p.is_dir() {
+                out.push((r.clone(), None));
+                walk(&p, &r, out);
+            } else {
+                out.push((r, Some(std::fs::read(&p).unwrap_or_default())));
+            }
+        }
+    }
+    let mut v = vec![];
+    walk(root, "", &mut v);
+    let mut h = 0xcbf29ce484222325u64;
+    for (p, b) in v {
+        fnv(&mut h, p.as_bytes());
+        fnv(&mut h, &[0]);
+        match b {
+            None => fnv(&mut h, b"<dir>"),
+            Some(b) => {
+                fnv(&mut h, &(b.len() as u64).to_le_bytes());
+                fnv(&mut h, &b)
+            }
+        }
+    }
+    h
+}
+
+fn load_text(ufo: &Path) -> (Option<Font>, String) {
+    match catch(|| Font::load(ufo)) {
+        Err(m) => (None, format!("panic: {}", m)),
+        Ok(Err(e)) => {
+            // variant and payload, without the (fixed) path prefix
+            let t = format!("{:?}", e);
+            (None, format!("error: {}", t.replace(&ufo.to_string_lossy().to_string(), "<ufo>")))
+        }
+        Ok(Ok(f)) => {
+            let h = digest_hash(&f);
+            (Some(f), format!("ok: {:016x}", h))
+        }
+    }
+}
+fn save_hash(f: &Font, out: &Path) -> String {
+    let _ = std::fs::remove_dir_all(out);
+    match catch(|| f.save(out)) {
+        Err(m) => format!("panic: {}", m),
+        Ok(Err(e)) => format!("error: {}", format!("{:?}", e).replace(&out.to_string_lossy().to_string(), "<out>")),
+        Ok(Ok(())) => format!("tree: {:016x}", tree_hash(out)),
+    }
+}
+
+static CHILD_SKIPPED: std::sync::atomic::AtomicU64 = std::sync::atomic::AtomicU64::new(0);
+
+/// the determinism oracle on one UFO directory; returns the first load and the list of differences
+fn determinism(ufo: &Path, work: &Path, runs: usize, children: usize) -> (Option<Font>, Vec<String>, String, String) {
+    let mut diffs = vec![];
+    let (first, t0) = load_text(ufo);
+    let mut last: Option<Font> = None;
+    for i in 1..runs {
+        let (f, t) = load_text(ufo);
+        if t != t0 {
+            diffs.push(format!("in-process load #{} differs from load #0: {} vs {}", i, t, t0));
+        }
+        if let (Some(a), Some(b)) = (&first, &f) {
+            if a != b {
+                diffs.push(format!("in-process load #{}: Font != Font of load #0", i));
+            }
+        }
+        last = f;
+    }
+    let mut s0 = String::from("-");
+    if let Some(f) = &first {
+        s0 = save_hash(f, &work.join("out_a"));
+        let s1 = save_hash(f, &work.join("out_b"));
+        if s1 != s0 {
+            diffs.push(format!("saving the same font twice gave different trees: {} vs {}", s0, s1));
+        }
+        if let Some(l) = &last {
+            let s2 = save_hash(l, &work.join("out_c"));
+            if s2 != s0 {
+                diffs.push(format!("saving another load of the same directory gave a different tree: {} vs {}", s0, s2));
+            }
+        }
+    }
+    let exe = std::env::current_exe().unwrap();
+    for c in 0..children {
+        let out = work.join(format!("child_{}", c));
+        // a child that cannot be started or dies without its two lines (resource limits of the
+        // machine) is retried and then skipped: that is not an observation about norad
+        let mut got: Option<(String, String)> = None;
+        for _attempt in 0..3 {
+            if let Ok(o) = std::process::Command::new(&exe).arg("c10").arg("--child").arg(ufo).arg("--out").arg(&out).output() {
+                let txt = String::from_utf8_lossy(&o.stdout).to_string();
+                let ls: Vec<&str> = txt.lines().collect();
+                if o.status.success() && ls.len() >= 2 {
+                    got = Some((ls[0].to_string(), ls[1].to_string()));
+                    break;
+                }
+            }
+            std::thread::sleep(std::time::Duration::from_millis(50));
+        }
+        match got {
+            Some((l, s)) => {
+                if l != t0 {
+                    diffs.push(format!("load in child process #{} differs: {} vs {}", c, l, t0));
+                }
+                if first.is_some() && s != s0 {
+                    diffs.push(format!("tree saved by child process #{} differs: {} vs {}", c, s, s0));
+                }
+            }
+            None => {
+                CHILD_SKIPPED.fetch_add(1, std::sync::atomic::Ordering::Relaxed);
+            }
+        }
+        let _ = std::fs::remove_dir_all(&out);
+    }
+    (first, diffs, t0, s0)
+}
+
+// ------------------------------------------------------------------ reading a UFO as a model case
+fn plist_groups(p: &Path) -> Option<GMap> {
+    let v = plist::Value::from_file(p).ok()?;
+    let d = v.as_dictionary()?;
+    let mut g = GMap::new();
+    for (k, v) in d {
+        g.insert(k.clone(), v.as_array()?.iter().filter_map(|m| m.as_string().map(|s| s.to_string())).collect());
+    }
+    Some(g)
+}
+fn num_bits(v: &plist::Value) -> Option<u64> {
+    if let Some(r) = v.as_real() {
+        return Some(r.to_bits());
+    }
+    if let Some(i) = v.as_signed_integer() {
+        return Some((i as f64).to_bits());
+    }
+    v.as_unsigned_integer().map(|u| (u as f64).to_bits())
+}
+fn plist_kerning(p: &Path) -> Option<KMap> {
+    let v = plist::Value::from_file(p).ok()?;
+    let d = v.as_dictionary()?;
+    let mut k = KMap::new();
+    for (a, row) in d {
+        let mut r = BTreeMap::new();
+        for (b, v) in row.as_dictionary()? {
+            r.insert(b.clone(), num_bits(v)?);
+        }
+        k.insert(a.clone(), r);
+    }
+    Some(k)
+}
+fn plist_feat(ufo: &Path) -> Feat {
+    let mut f = Feat::default();
+    if let Ok(v) = plist::Value::from_file(ufo.join("lib.plist")) {
+        if let Some(d) = v.as_dictionary() {
+            f.classes = d.get("org.robofab.opentype.classes").and_then(|x| x.as_string()).map(|s| s.to_string());
+            f.order = d
+                .get("org.robofab.opentype.featureorder")
+                .and_then(|x| x.as_array())
+                .map(|a| a.iter().filter_map(|x| x.as_string().map(|s| s.to_string())).collect());
+            f.blocks = d.get("org.robofab.opentype.features").and_then(|x| x.as_dictionary()).map(|b| {
+                b.iter().filter_map(|(k, v)| v.as_string().map(|s| (k.clone(), s.to_string()))).collect()
+            });
+        }
+    }
+    f.fea = std::fs::read_to_string(ufo.join("features.fea")).ok();
+    f
+}
+/// a fixture directory as a model case (names interned = glyph names and component bases of all
+/// loaded layers; a glif's inner name cannot be recovered from the loaded font and is assumed to
+/// equal the contents key)
+fn case_from_ufo(ufo: &Path, font: &Font) -> Option<Case10> {
+    let meta = plist::Value::from_file(ufo.join("metainfo.plist")).ok()?;
+    let ver = meta.as_dictionary()?.get("formatVersion")?.as_unsigned_integer()? as u8;
+    let groups = if ufo.join("groups.plist").exists() { Some(plist_groups(&ufo.join("groups.plist"))?) } else { None };
+    let kerning = if ufo.join("kerning.plist").exists() { Some(plist_kerning(&ufo.join("kerning.plist"))?) } else { None };
+    let mut glyphs = vec![];
+    let mut seen = std::collections::BTreeSet::new();
+    for l in font.layers.iter() {
+        for g in l.iter() {
+            let comps: Vec<String> = g.components.iter().map(|c| c.base.to_string()).collect();
+            if seen.insert(g.name().to_string()) || !comps.is_empty() {
+                glyphs.push(c15::GlyphSpec { name: g.name().to_string(), inner: None, comps });
+            }
+        }
+    }
+    Some(Case10 { base: Case { ver, groups, kerning, glyphs, shuffle: 0 }, feat: plist_feat(ufo) })
+}
+
+// ------------------------------------------------------------------ generator
+const TAGS: [&str; 8] = ["kern", "liga", "aalt", "mark", "Zulu", "calt", "ss01", "KERN"];
+const GNAMES: [&str; 10] = [
+    "A", "@MMK_L_A", "@MMK_L_@MMK_L_A", "public.kern1.A", "A1", "@MMK_R_A", "public.kern2.A", "B", "@MMK_L_B", "@MMK_R_B",
+];
+
+pub fn gen_case(seed: u64, idx: u64) -> Case10 {
+    let mut r = Rng::new(seed.wrapping_mul(0x2545_F491_4F6C_DD1D) ^ idx.wrapping_mul(0x9E37_79B9_7F4A_7C15) ^ 0xC10);
+    let ver: u8 = if r.chance(2, 3) { 1 } else { 2 };
+    // groups whose names collide after prefixing
+    let mut g = GMap::new();
+    let ng = 2 + r.below(5) as usize;
+    for i in 0..ng {
+        let n = if i < 2 { GNAMES[i + (r.below(2) as usize)] } else { *r.pick(&GNAMES) };
+        g.insert(n.to_string(), vec![format!("m{}", i)]);
+    }
+    let names: Vec<String> = g.keys().cloned().collect();
+    let mut k = KMap::new();
+    for pi in 0..r.below(6) as usize {
+        let a = if r.chance(3, 4) { r.pick(&names).clone() } else { "x".to_string() };
+        let b = if r.chance(3, 4) { r.pick(&names).clone() } else { "y".to_string() };
+        k.entry(a).or_default().insert(b, (((pi + 1) * 5) as f64).to_bits());
+    }
+    let mut glyphs = vec![];
+    for gn in ["x", "y"] {
+        if r.chance(2, 3) {
+            glyphs.push(c15::GlyphSpec { name: gn.to_string(), inner: None, comps: vec![] });
+        }
+    }
+    let base = Case { ver, groups: Some(g), kerning: if r.chance(1, 8) { None } else { Some(k) }, glyphs, shuffle: r.next() | 1 };
+    // 2-6 feature blocks, mostly without an order list
+    let nb = 2 + r.below(5) as usize;
+    let mut tags: Vec<&str> = TAGS.to_vec();
+    for i in (1..tags.len()).rev() {
+        let j = r.below(i as u64 + 1) as usize;
+        tags.swap(i, j);
+    }
+    let blocks: Vec<(String, String)> =
+        tags[..nb].iter().map(|t| (t.to_string(), format!("feature {} {{ sub a by b{}; }} {};\n", t, r.below(9), t))).collect();
+    let order = if r.chance(1, 4) {
+        let mut o: Vec<String> = vec![];
+        for _ in 0..r.below(5) {
+            o.push(if r.chance(4, 5) { r.pick(&tags[..nb]).to_string() } else { "none".to_string() });
+        }
+        Some(o)
+    } else {
+        None
+    };
+    let feat = Feat {
+        classes: if r.chance(1, 2) { Some("@c = [a b];".to_string()) } else { None },
+        order,
+        blocks: if r.chance(1, 12) { None } else { Some(blocks) },
+        fea: if r.chance(1, 3) { Some("# features.fea\n".to_string()) } else { None },
+        data: {
+            // pairwise distinct, prefix-free keys, some nested (the store writes them in HashMap order)
+            const DK: [&str; 6] = ["a.txt", "b/c.bin", "b/d/e.txt", "f/g.txt", "h.bin", "b/d/i.txt"];
+            let mut v = vec![];
+            if r.chance(1, 2) {
+                for (i, k) in DK.iter().enumerate() {
+                    if r.chance(1, 2) {
+                        v.push((k.to_string(), vec![i as u8 + 65; 1 + r.below(4) as usize]));
+                    }
+                }
+            }
+            v
+        },
+        images: {
+            let mut v = vec![];
+            if r.chance(1, 3) {
+                for k in ["i1.png", "i2.png", "i3.png"] {
+                    if r.chance(1, 2) {
+                        let mut b = vec![0x89, b'P', b'N', b'G', 0x0d, 0x0a, 0x1a, 0x0a];
+                        b.push(r.below(256) as u8);
+                        v.push((k.to_string(), b));
+                    }
+                }
+            }
+            v
+        },
+    };
+    Case10 { base, feat }
+}
+
+fn fixture_ufos(repo: &Path) -> Vec<PathBuf> {
+    fn walk(d: &Path, out: &mut Vec<PathBuf>) {
+        if let Ok(rd) = std::fs::read_dir(d) {
+            let mut es: Vec<_> = rd.filter_map(|e| e.ok()).map(|e| e.path()).collect();
+            es.sort();
+            for p in es {
+                if p.is_dir() {
+                    if p.extension().map(|x| x == "ufo").unwrap_or(false) && p.join("metainfo.plist").exists() {
+                        out.push(p);
+                    } else {
+                        walk(&p, out);
+                    }
+                }
+            }
+        }
+    }
+    let mut v = vec![];
+    walk(&repo.join("testdata"), &mut v);
+    v
+}
+
+fn render_feat(f: &Feat, it: &mut Interner) -> String {
+    let mut s = String::from("(");
+    match &f.classes {
+        None => s.push_str("None"),
+        Some(c) => {
+            let _ = write!(s, "Some {}", it.name(c));
+        }
+    }
+    s.push_str(", ");
+    match &f.order {
+        None => s.push_str("None"),
+        Some(o) => {
+            let _ = write!(s, "Some [{}]", o.iter().map(|x| it.name(x).to_string()).collect::<Vec<_>>().join(";"));
+        }
+    }
+    s.push_str(", ");
+    match &f.blocks {
+        None => s.push_str("None"),
+        Some(b) => {
+            // the BTreeMap the deserialiser builds: ascending byte order of the tags
+            let m: BTreeMap<&String, &String> = b.iter().map(|(k, v)| (k, v)).collect();
+            let _ = write!(s, "Some [{}]", m.iter().map(|(k, v)| format!("({},{})", it.name(k), it.name(v))).collect::<Vec<_>>().join(";"));
+        }
+    }
+    s.push_str(", ");
+    match &f.fea {
+        None => s.push_str("None"),
+        Some(t) => {
+            let _ = write!(s, "Some {}", it.name(t));
+        }
+    }
+    s.push(')');
+    s
+}
+
+/// what the save left below data/ and images/: (directories, files with bytes), relative paths
+#[derive(Clone, Debug, Default)]
+struct StoreObs {
+    dirs: Vec<String>,
+    files: Vec<(String, Vec<u8>)>,
+}
+fn observe_store(root: &Path) -> StoreObs {
+    fn walk(dir: &Path, rel: &str, o: &mut StoreObs) {
+        let mut es: Vec<_> = match std::fs::read_dir(dir) {
+            Ok(rd) => rd.filter_map(|e| e.ok()).collect(),
+            Err(_) => return,
+        };
+        es.sort_by_key(|e| e.file_name());
+        for e in es {
+            let name = e.file_name().to_string_lossy().to_string();
+            let r = if rel.is_empty() { name.clone() } else { format!("{}/{}", rel, name) };
+            if e.path().is_dir() {
+                o.dirs.push(r.clone());
+                walk(&e.path(), &r, o);
+            } else {
+                o.files.push((r, std::fs::read(e.path()).unwrap_or_default()));
+            }
+        }
+    }
+    let mut o = StoreObs::default();
+    walk(root, "", &mut o);
+    o
+}
+fn g_path(p: &str, it: &mut Interner) -> String {
+    format!("[{}]", p.split('/').map(|c| it.name(c).to_string()).collect::<Vec<_>>().join(";"))
+}
+fn g_bytes10(b: &[u8]) -> String {
+    format!("[{}]", b.iter().map(|x| x.to_string()).collect::<Vec<_>>().join(";"))
+}
+/// (entries in ascending key order, observed directories, observed files) of one store
+fn render_store(entries: &[(String, Vec<u8>)], obs: &StoreObs, it: &mut Interner) -> String {
+    let mut es: Vec<&(String, Vec<u8>)> = entries.iter().collect();
+    es.sort();
+    format!(
+        "([{}], [{}], [{}])",
+        es.iter().map(|(k, v)| format!("({},{})", g_path(k, it), g_bytes10(v))).collect::<Vec<_>>().join(";"),
+        obs.dirs.iter().map(|d| g_path(d, it)).collect::<Vec<_>>().join(";"),
+        obs.files.iter().map(|(k, v)| format!("({},{})", g_path(k, it), g_bytes10(v))).collect::<Vec<_>>().join(";")
+    )
+}
+
+struct Done {
+    data_obs: StoreObs,
+    images_obs: StoreObs,
+    label: String,
+    case: Option<Case10>,
+    expected: Option<O>,
+    features: Option<String>,
+    diffs: Vec<String>,
+    loaded: bool,
+    converted: bool,
+}
+
+fn run_one(label: String, ufo_src: Option<&Path>, case: Option<Case10>, work: &Path, runs: usize, children: usize) -> Done {
+    std::fs::create_dir_all(work).unwrap();
+    let (ufo, case, first_dump) = match (ufo_src, case) {
+        (None, Some(c)) => {
+            // generated: written by the C15 writer (+ lib.plist / features.fea), first load dumped
+            let feat = c.feat.clone();
+            let sh = c.base.shuffle;
+            let (ob, _) = c15::observe_with(work, &c.base, false, &move |ufo| write_extra(ufo, &feat, sh));
+            let v = c15::judge(&c.base, &ob);
+            (work.join("in.ufo"), Some(c), Some(v))
+        }
+        (Some(p), _) => (p.to_path_buf(), None, None),
+        _ => unreachable!(),
+    };
+    let (first, diffs, _t0, _s0) = determinism(&ufo, work, runs, children);
+    let mut d = Done {
+        data_obs: observe_store(&work.join("out_a").join("data")),
+        images_obs: observe_store(&work.join("out_a").join("images")),
+        label,
+        case,
+        expected: None,
+        features: None,
+        diffs,
+        loaded: first.is_some(),
+        converted: false,
+    };
+    if let Some(f) = &first {
+        d.features = Some(f.features.clone());
+        if d.case.is_none() {
+            // fixture: the model case is read from the files
+            if let Some(c) = case_from_ufo(&ufo, f) {
+                let (g, k) = c15_font_gk(f);
+                let ob = c15::Observed { load: c15::LoadOut::Ok(g, k), save_direct: c15::SaveOut::NotRun, resave: c15::SaveOut::NotRun, resave_same: true };
+                let v = c15::judge(&c.base, &ob);
+                d.converted = v.converted;
+                d.expected = Some(v.expected);
+                d.case = Some(c);
+            }
+        }
+    }
+    if let Some(v) = first_dump {
+        d.converted = v.converted;
+        d.expected = Some(v.expected);
+    }
+    d
+}
+fn c15_font_gk(f: &Font) -> (GMap, KMap) {
+    let g = f.groups.iter().map(|(n, ms)| (n.to_string(), ms.iter().map(|m| m.to_string()).collect())).collect();
+    let k = f.kerning.iter().map(|(a, row)| (a.to_string(), row.iter().map(|(b, v)| (b.to_string(), v.to_bits())).collect())).collect();
+    (g, k)
+}
+
+pub fn main(a: &Args) {
+    // child process: one load, one save, two lines
+    if let Some(i) = a.extra.iter().position(|x| x == "--child") {
+        let ufo = PathBuf::from(&a.extra[i + 1]);
+        let (f, t) = load_text(&ufo);
+        println!("{}", t);
+        if let Some(f) = f {
+            std::fs::create_dir_all(&a.out).unwrap();
+            println!("{}", save_hash(&f, &a.out.join("out_a")));
+        } else {
+            println!("-");
+        }
+        return;
+    }
+    let repo = a
+        .extra
+        .iter()
+        .position(|x| x == "--repo")
+        .and_then(|i| a.extra.get(i + 1))
+        .map(PathBuf::from)
+        .unwrap_or_else(|| PathBuf::from("/repo"));
+    let th = a.thorough();
+    let (runs, children) = if th { (36, 4) } else { (16, 4) };
+    if let Some(rp) = &a.replay {
+        let txt = std::fs::read_to_string(rp).expect("replay file");
+        let j: serde_json::Value = serde_json::from_str(&txt).expect("json");
+        let work = a.out.join("replay10");
+        let d = if let Some(p) = j["fixture"].as_str() {
+            run_one(p.to_string(), Some(Path::new(p)), None, &work, 40, 4)
+        } else {
+            run_one("replay".into(), None, Some(Case10::from_json(&j["case"])), &work, 40, 4)
+        };
+        println!("ufo: {}", d.label);
+        if let Some(c) = &d.case {
+            println!("case: {}", c.to_json());
+        }
+        println!("loaded: {}  feature text: {:?}", d.loaded, d.features);
+        if d.diffs.is_empty() {
+            println!("determinism oracle: 40 in-process loads, 4 child processes, saved trees: all equal");
+        }
+        for x in &d.diffs {
+            println!("determinism oracle FAILS: {}", x);
+        }
+        let _ = std::fs::remove_dir_all(&work);
+        return;
+    }
+    std::fs::create_dir_all(&a.out).unwrap();
+    let fixtures = fixture_ufos(&repo);
+    let ngen = if th { 5000 } else { 300 };
+    let total = fixtures.len() + ngen;
+    let nthreads = std::thread::available_parallelism().map(|x| x.get()).unwrap_or(4).min(8).max(1);
+    let chunk = (total + nthreads - 1) / nthreads;
+    let mut results: Vec<Vec<Done>> = vec![];
+    std::thread::scope(|sc| {
+        let mut hs = vec![];
+        for t in 0..nthreads {
+            let fixtures = &fixtures;
+            let out = a.out.clone();
+            let seed = a.seed;
+            hs.push(sc.spawn(move || {
+                let work = out.join(format!("w10_{}", t));
+                let mut v = vec![];
+                for i in (t * chunk)..((t + 1) * chunk).min(total) {
+                    if i < fixtures.len() {
+                        v.push(run_one(fixtures[i].to_string_lossy().to_string(), Some(&fixtures[i]), None, &work, runs, children));
+                    } else {
+                        let c = gen_case(seed, (i - fixtures.len()) as u64);
+                        v.push(run_one(format!("generated #{}", i - fixtures.len()), None, Some(c), &work, runs, children));
+                    }
+                }
+                let _ = std::fs::remove_dir_all(&work);
+                v
+            }));
+        }
+        for h in hs {
+            results.push(h.join().unwrap());
+        }
+    });
+    let mut it = Interner::default();
+    let mut cases = String::new();
+    let mut fails = vec![];
+    let (mut nloaded, mut nconv, mut nmodel, mut nfeat, mut nnoorder) = (0u64, 0u64, 0u64, 0u64, 0u64);
+    let mut idx = 0usize;
+    let mut labels = vec![];
+    for ch in &results {
+        for d in ch {
+            labels.push(d.label.clone());
+            nloaded += d.loaded as u64;
+            nconv += d.converted as u64;
+            if let (Some(c), Some(e), Some(ft)) = (&d.case, &d.expected, &d.features) {
+                nmodel += 1;
+                if c.feat.blocks.is_some() && c.base.ver == 1 {
+                    nfeat += 1;
+                    if c.feat.order.is_none() {
+                        nnoorder += 1;
+                    }
+                }
+                let _ = write!(cases, "({}, ({}, {}, EL [", idx, c15::render_case(&c.base, &mut it), render_feat(&c.feat, &mut it));
+                // load outcome and class flags (the direct save of C15 is not part of this run)
+                let e3 = match e {
+                    O::L(v) if v.len() == 4 => O::L(vec![v[0].clone(), v[2].clone(), v[3].clone()]),
+                    other => other.clone(),
+                };
+                e3.render(&mut cases, &mut it);
+                let _ = write!(cases, ";EI {}]", it.name(ft));
+                // the two store-writing loops: entries as written into the UFO (generated cases only)
+                let generated = d.label.starts_with("generated");
+                let no: Vec<(String, Vec<u8>)> = vec![];
+                let noobs = StoreObs::default();
+                let ds = render_store(if generated { &c.feat.data } else { &no }, if generated { &d.data_obs } else { &noobs }, &mut it);
+                let is = render_store(if generated { &c.feat.images } else { &no }, if generated { &d.images_obs } else { &noobs }, &mut it);
+                let _ = write!(cases, ", {}, {}))\n", ds, is);
+            }
+            for x in &d.diffs {
+                fails.push(serde_json::json!({"index": idx, "ufo": d.label, "what": x,
+                    "case": d.case.as_ref().filter(|_| d.label.starts_with("generated")).map(|c| c.to_json()),
+                    "fixture": if d.label.starts_with("generated") { None } else { Some(d.label.clone()) }}));
+            }
+            idx += 1;
+        }
+    }
+    write_file(&a.out.join("cases.txt"), &cases);
+    write_file(&a.out.join("names.json"), &serde_json::to_string(&it.names).unwrap());
+    write_file(&a.out.join("oracle.json"), &serde_json::to_string(&fails).unwrap());
+    let summ = serde_json::json!({
+        "ufos": total, "fixtures": fixtures.len(), "generated": ngen, "in_process_loads_per_ufo": runs,
+        "child_processes_per_ufo": children, "loaded": nloaded, "converted_groups": nconv,
+        "compared_with_model": nmodel, "with_feature_blocks_v1": nfeat, "without_order_list": nnoorder,
+        "determinism_failures": fails.len(), "child_runs_skipped": CHILD_SKIPPED.load(std::sync::atomic::Ordering::Relaxed), "labels": labels.iter().take(fixtures.len()).collect::<Vec<_>>(),
+    });
+    write_file(&a.out.join("summary.json"), &summ.to_string());
 }
